@@ -12,7 +12,8 @@ MODULES = {
     "C06": ["contracts.externals", "contracts.codec_headers", "contracts.ezsp_protocol", "contracts.ezsp"],
     "C08": ["contracts.externals", "contracts.codec_headers", "contracts.ezsp_protocol", "contracts.ezsp"],
     "C07": ["contracts.externals", "contracts.codec_headers", "contracts.codec"],
-    "C09": ["contracts.externals", "contracts.types_named", "contracts.codec_headers", "contracts.ezsp_protocol", "contracts.ezsp", "contracts.ezsp_config"],
+    "C09": ["contracts.externals", "contracts.types_named", "contracts.codec_headers", "contracts.ezsp_protocol", "contracts.ezsp", "contracts.ezsp_config",
+            "contracts.ash", "contracts.ash_wire", "contracts.uart"],
     "C16": ["contracts.externals", "contracts.types_named", "contracts.codec_headers", "contracts.ezsp_protocol", "contracts.ezsp", "contracts.ezsp_config"],
     "C15": ["contracts.externals", "contracts.types_named", "contracts.multicast"],
     "C19": ["contracts.externals", "contracts.types_named", "contracts.application"],
